@@ -1742,6 +1742,22 @@ fn audit_hpke_inputs(st: &mut St) {
                 psk.as_ref().map(|(v, i)| format!(", psk of {} bytes, psk id of {} bytes", v.len(), i.len())).unwrap_or_default()
             );
             side(st, &class, suite, &desc, &sealed.iter().map(|(p, r)| ans(p, r)).collect::<Vec<_>>());
+            // the verdict itself, not only that it is common: a PSK shorter than 32 bytes must be refused (RFC 9180 5.1.2, and the
+            // length check of mls-rs-crypto-hpke); a well-formed input must be accepted.  (A 32-byte PSK with an EMPTY id is accepted
+            // by the shared HPKE code of all providers although RFC 9180 calls the inputs inconsistent: not a provider divergence,
+            // recorded in the cover output only.)
+            let must_refuse = matches!(&psk, Some((v, _)) if v.len() < 32);
+            let must_accept = match &psk {
+                None => true,
+                Some((v, i)) => v.len() >= 32 && !i.is_empty(),
+            };
+            let accepted: Vec<&str> = sealed.iter().filter(|(_, r)| r.is_ok()).map(|(p, _)| *p).collect();
+            if must_refuse && !accepted.is_empty() {
+                st.fail(format!("[{class}-accepted] suite {suite}: {desc} must be refused (RFC 9180 5.1.2) but is accepted by {}", accepted.join("+")));
+            }
+            if must_accept && accepted.len() != sealed.len() {
+                st.fail(format!("[{class}-refused] suite {suite}: {desc} is a valid input but is refused by some provider"));
+            }
             // where accepted: every provider opens every provider's ciphertext
             let mut refused: Vec<String> = vec![];
             for (sp, r) in &sealed {
